@@ -168,10 +168,13 @@ def loopExc (e : Exc) : Option Exc := if DbSessionGen.loopExitPassesExc then som
 /-- one record per execution of the decorated function's body (ghost output of the loop) -/
 structure Att where
   start : St                 -- state right after `_enter()`
-  writes : List Write        -- what the body left pending
+  after : St                 -- state in which the body ended (what it committed itself is in `after.committed`)
   bodyOut : Outcome
   exc : Option Exc           -- what the `except:` clause saw (body's exception or commit()'s), `none` = `return result`
   deriving DecidableEq, Repr, Inhabited
+
+/-- what the body left pending -/
+def Att.writes (a : Att) : List Write := a.after.pending
 
 structure Res where
   st : St
@@ -191,7 +194,7 @@ def attempt (env : Env) (o : Opts) (run : Nat → St → St × Outcome) (i : Nat
   let c : St × Option Exc := match b.2 with
     | .ret => if DbSessionGen.commitAfterBody then commit env b.1 else (b.1, none)
     | .raise e => (b.1, some e)
-  let a : Att := ⟨s1, b.1.pending, b.2, c.2⟩
+  let a : Att := ⟨s1, b.1, b.2, c.2⟩
   match c.2 with
   | none =>
     let x := exit env o none c.1                           -- `return result` → `finally: __exit__(None, None, None)`
@@ -337,6 +340,8 @@ inductive Prog where
   | write (w : Write)
   | mark (n : Nat)
   | observe
+  | commit                   -- the body calls the module-level `commit()` itself
+  | rollback                 -- the body calls the module-level `rollback()` itself
   | raise (e : Exc)
   | seq (a b : Prog)
   | tryCatch (p : Prog) (catches : Exc → Bool) (h : Prog)
@@ -352,6 +357,10 @@ def exec (env : Env) : Prog → St → St × Outcome
   | .observe, s =>
     if s.session.isSome then ({ s with trace := s.trace ++ [.saw (s.committed ++ s.pending)] }, .ret)
     else (s, .raise .noSession)
+  | .commit, s =>
+    let r := commit env s
+    (r.1, match r.2 with | none => .ret | some e => .raise e)
+  | .rollback, s => (rollback s, .ret)
   | .raise e, s => (s, .raise e)
   | .seq a b, s =>
     match exec env a s with
@@ -365,5 +374,16 @@ def exec (env : Env) : Prog → St → St × Outcome
   | .call o f, s => let r := decorated env o (fun i => exec env (f i)) s; (r.st, r.out)
   | .iter o steps, s => iterGen env o steps s
   | .flask hooked view, s => flaskRequest env hooked (exec env view) s
+
+/-- the program never calls `commit()` / `rollback()` itself (outside generator segments) -/
+def Prog.noManual : Prog → Prop
+  | .commit => False
+  | .rollback => False
+  | .seq a b => a.noManual ∧ b.noManual
+  | .tryCatch p _ h => p.noManual ∧ h.noManual
+  | .withSession _ p => p.noManual
+  | .call _ f => ∀ i, (f i).noManual
+  | .flask _ v => v.noManual
+  | _ => True
 
 end PonyVerif.Model.DbSession
